@@ -68,7 +68,7 @@ func H_C15(steps, compressed int) {
 	ent := vEntity{A: 1, B: "x"}
 	marshalled := false // marshalling is stubbed symbolically, real natively: nothing to compare then
 	for i := 0; i < steps; i++ {
-		op := nondetChoice("op"+vItoa(i), 9)
+		op := nondetChoice("op"+vItoa(i), 12)
 		wasFailed := w.failed
 		before := w.accepted
 		var err error
@@ -110,6 +110,18 @@ func H_C15(steps, compressed int) {
 		case 8:
 			setsStatus = 203
 			err = resp.WriteHeaderAndXml(203, ent)
+			handed = -1 << 30
+		case 9:
+			setsStatus = 409
+			err = resp.WriteServiceError(409, NewError(409, "conflict"))
+			handed = -1 << 30
+		case 10:
+			setsStatus = 200
+			err = resp.WriteJson(ent, "a/j")
+			handed = -1 << 30
+		case 11:
+			setsStatus = 207
+			err = resp.WriteHeaderAndJson(207, ent, "a/j")
 			handed = -1 << 30
 		}
 		if op >= 4 {
